@@ -86,26 +86,26 @@ type Interp struct {
 }
 
 type Run struct {
-	choices []int
-	alts    []int
-	pos     int
-	descs   []string
-	facts   map[*SymType]*TFact
-	preds   map[string]Tri
-	out     []Line
-	indent  int
-	events  []Event
-	nextID  int
-	holes   []*Hole
-	reqs    []Request
-	gens    [][]*SymType
-	errs    []*ErrVal
-	basics  map[types.BasicKind]*SymType
-	imports []*Hole
+	choices  []int
+	alts     []int
+	pos      int
+	descs    []string
+	facts    map[*SymType]*TFact
+	preds    map[string]Tri
+	out      []Line
+	indent   int
+	events   []Event
+	nextID   int
+	holes    []*Hole
+	reqs     []Request
+	gens     [][]*SymType
+	errs     []*ErrVal
+	basics   map[types.BasicKind]*SymType
+	imports  []*Hole
 	setNames int
-	opts    map[string]*OptType
-	flats   []flatRec
-	classes map[string]string
+	opts     map[string]*OptType
+	flats    []flatRec
+	classes  map[string]string
 }
 
 func NewInterp(l *driver.Loaded) *Interp {
